@@ -13,7 +13,7 @@ os.makedirs(root)
 try:
     subprocess.run(["rsync", "-a", "--exclude", "replays", "--exclude", ".git", "/verif/", root + "/verif/"], check=True)
     subprocess.run(["git", "clone", "-q", "/repo", root + "/repo"], check=True)
-    names = args or sorted(d for d in os.listdir("/verif/seeded") if os.path.isdir(os.path.join("/verif/seeded", d)))
+    names = args or sorted(d for d in os.listdir("/verif/seeded") if os.path.exists(os.path.join("/verif/seeded", d, "meta.json")))
     res = {}
     if os.path.exists("/verif/seeded/MATRIX.json") and args:
         res = json.load(open("/verif/seeded/MATRIX.json"))
@@ -41,6 +41,7 @@ try:
         print(name, "CAUGHT" if res[name]["caught"] else "MISSED exit=%d" % p.returncode, sigs[:1], flush=True)
         subprocess.run("git checkout -q -- . && git clean -fdq", shell=True, cwd=root + "/repo")
         shutil.rmtree(root + "/verif/replays", ignore_errors=True)
+        json.dump(res, open("/verif/seeded/MATRIX.json", "w"), indent=1, sort_keys=True)
     json.dump(res, open("/verif/seeded/MATRIX.json", "w"), indent=1, sort_keys=True)
     missed = [k for k, v in res.items() if not v.get("caught")]
     print("total", len(res), "missed", missed)
